@@ -650,6 +650,10 @@ pub fn run(r: &mut Runner, level: &str, profile: &str, seed: u64, count: u64, ti
     if level == "conn" && profile == "C18" {
         quiet_keepalive(r);
     }
+    if level == "conn" && matches!(profile, "C18" | "C12") {
+        let mut rng = master.fork();
+        timed_cases(r, &mut rng, if tier_thorough { 12 } else { 3 });
+    }
     r.finish();
     st
 }
@@ -1106,6 +1110,148 @@ pub fn quiet_keepalive(r: &mut Runner) {
             "a client that sent a quiet command every 400 ms (idle timeout 2 s, largest gap between its sends {} ms) was cut off: quiet stores completely sent but not executed: [{}]; final noop {}{}",
             max_gap.as_millis(), missing.join(" "), if noop_ok { "answered" } else { "not answered" },
             send_failed.map_or(String::new(), |i| format!("; sending request {} failed", i)))));
+    }
+}
+
+/// the implementation side of a `tcase` line: a fresh store and server (idle timeout `rx_ms`), one connection opened at
+/// instant 0; every `t:hex` is sent at instant t (ms); at the final instant everything received so far is returned with the
+/// state of the connection. A run in which the sender itself was more than 400 ms late is repeated (three times at most).
+pub fn tcase_run(limit: u32, rx_ms: u64, now: u64, toks: &[&str]) -> String {
+    use std::io::{Read, Write};
+    let plan: Vec<(u64, Vec<u8>)> = toks[..toks.len() - 1].iter().map(|t| {
+        let (a, b) = t.split_once(':').unwrap();
+        (a.parse().unwrap(), wire::unhex(b).unwrap())
+    }).collect();
+    let tfin: u64 = toks[toks.len() - 1].parse().unwrap();
+    let mut result = String::new();
+    for _attempt in 0..3 {
+        let clock = std::sync::Arc::new(crate::sut::Clock(std::sync::atomic::AtomicU64::new(now)));
+        let store: std::sync::Arc<dyn memcrs::cache::cache::Cache + Send + Sync> = std::sync::Arc::new(memcrs::memory_store::store::MemoryStore::new(clock));
+        let srv = crate::net::start_server(store, limit, 8, (rx_ms / 1000) as u32);
+        let Ok(mut c) = std::net::TcpStream::connect(("127.0.0.1", srv.port)) else { continue };
+        let t0 = std::time::Instant::now();
+        c.set_nodelay(true).ok();
+        c.set_nonblocking(true).ok();
+        let mut got: Vec<u8> = vec![];
+        let mut closed = false;
+        let mut late = 0u64;
+        let mut buf = [0u8; 65536];
+        let mut pump = |c: &mut std::net::TcpStream, got: &mut Vec<u8>, closed: &mut bool| loop {
+            match c.read(&mut buf) {
+                Ok(0) => {
+                    *closed = true;
+                    break;
+                }
+                Ok(n) => got.extend_from_slice(&buf[..n]),
+                Err(e) if e.kind() == std::io::ErrorKind::WouldBlock => break,
+                Err(_) => {
+                    *closed = true;
+                    break;
+                }
+            }
+        };
+        for (t, bytes) in &plan {
+            let due = std::time::Duration::from_millis(*t);
+            while t0.elapsed() < due {
+                pump(&mut c, &mut got, &mut closed);
+                std::thread::sleep(std::time::Duration::from_millis(2));
+            }
+            late = late.max((t0.elapsed() - due).as_millis() as u64);
+            c.set_nonblocking(false).ok();
+            let _ = c.write_all(bytes);
+            c.set_nonblocking(true).ok();
+        }
+        let due = std::time::Duration::from_millis(tfin);
+        while t0.elapsed() < due {
+            pump(&mut c, &mut got, &mut closed);
+            std::thread::sleep(std::time::Duration::from_millis(2));
+        }
+        late = late.max((t0.elapsed() - due).as_millis() as u64);
+        // what is on its way
+        let t1 = std::time::Instant::now();
+        while t1.elapsed() < std::time::Duration::from_millis(120) {
+            pump(&mut c, &mut got, &mut closed);
+            std::thread::sleep(std::time::Duration::from_millis(5));
+        }
+        result = format!("out {} {}", wire::hexd(&got), if closed { "closed" } else { "open" });
+        if late <= 400 {
+            break;
+        }
+    }
+    result
+}
+
+/// C18 / C12: the receive timeout as `Model/Timed` has it — restarted by every request that becomes complete (answered or
+/// not), not by bytes that complete nothing; when it fires, nothing that arrives later is read. Arrival plans keep a second
+/// away from every deadline of a 2 s timeout.
+pub fn timed_cases(r: &mut Runner, rng: &mut Rng, n: usize) {
+    let rx: u64 = 2000;
+    for case in 0..n {
+        r.exec("new 1024");
+        let mut toks: Vec<String> = vec![];
+        let mut t: u64 = 0;
+        let mut deadline: u64 = rx;
+        let narr = rng.range(3, 6);
+        let mut dead = false;
+        for i in 0..narr {
+            let key = format!("t{}", rng.below(3)).into_bytes();
+            let f: Vec<u8> = match rng.below(6) {
+                0 => wire::set_like(op::SET, &key, b"v", 1, 0, 0, 10 + i as u32).bytes(),
+                1 | 2 => wire::set_like(op::SETQ, &key, b"q", 2, 0, 0, 10 + i as u32).bytes(),
+                3 => wire::key_only(op::GETQ, b"absent", 0, 10 + i as u32).bytes(),
+                4 => wire::key_only(op::GET, &key, 0, 10 + i as u32).bytes(),
+                _ => wire::bare(op::NOOP, 10 + i as u32).bytes(),
+            };
+            let last = i + 1 == narr;
+            match if last && case % 2 == 1 { rng.below(2) + 2 } else { rng.below(2) } {
+                0 => {
+                    // a whole request, in time: the timer is restarted
+                    t += rng.range(200, 1000);
+                    toks.push(format!("{}:{}", t, hex(&f)));
+                    deadline = t + rx;
+                }
+                1 => {
+                    // a request in two pieces, both in time: only the second restarts the timer
+                    let cut = rng.range(1, f.len() as u64 - 1) as usize;
+                    t += rng.range(150, 500);
+                    toks.push(format!("{}:{}", t, hex(&f[..cut])));
+                    t += rng.range(100, 450);
+                    toks.push(format!("{}:{}", t, hex(&f[cut..])));
+                    deadline = t + rx;
+                }
+                2 => {
+                    // a whole request after the deadline: never read
+                    t = deadline + rng.range(1000, 1400);
+                    toks.push(format!("{}:{}", t, hex(&f)));
+                    dead = true;
+                }
+                _ => {
+                    // the first piece in time, the rest after the deadline the first piece did not move
+                    let cut = rng.range(1, f.len() as u64 - 1) as usize;
+                    t += rng.range(150, 500);
+                    toks.push(format!("{}:{}", t, hex(&f[..cut])));
+                    t = deadline + rng.range(1000, 1400);
+                    toks.push(format!("{}:{}", t, hex(&f[cut..])));
+                    dead = true;
+                }
+            }
+            if dead {
+                break;
+            }
+        }
+        let tfin = t + 300;
+        let line = format!("tcase {} 7 {} {}", rx, toks.join(" "), tfin);
+        let out = r.exec(&line);
+        // oracle, independent of the model: a connection all of whose arrivals were in time is open and every loud
+        // request is answered; one that was late is closed
+        let prog = r.prog_start.len().saturating_sub(1);
+        let start = r.ops.len() - 1;
+        if !dead && out.ends_with("closed") {
+            r.violations.push((prog, vec!["C18", "C12"], start, format!("a connection whose requests all arrived at least a second before the idle timeout ({} ms) would have fired was closed: {}", rx, trunc(&line))));
+        }
+        if dead && out.ends_with("open") {
+            r.violations.push((prog, vec!["C18", "C17"], start, format!("a connection that stayed silent (or stuck inside a request) for a second longer than the idle timeout ({} ms) is still open: {}", rx, trunc(&line))));
+        }
     }
 }
 
